@@ -123,6 +123,34 @@ def run_case(case):
         d.update(object=desc)
         res['violations'].append({'sig': 'ocf:%s:%s' % (sig_, kind), 'detail': d})
 
+    # ---- calls that FAIL (bad argument; a world whose rank is still missing) must leave the object as it was:
+    # everything below is asked on the same object afterwards
+    if rng.random() < 0.3:
+        from pysmt.shortcuts import Int as _Int, Plus as _Plus, Symbol as _Sym
+        from pysmt.typing import INT as _INT
+        bad_args = [None, 'a,b', _Int(3), _Plus(_Sym('vf_int_%d' % rng.randint(0, 3), _INT), _Int(1))]
+        for _ in range(rng.randint(1, 3)):
+            arg = rng.choice(bad_args)
+            meth = rng.choice(['formula_rank', 'compute_conditionalization', 'conditionalize_existing_ranks'])
+            try:
+                getattr(o, meth)(arg)
+                bump('bad_argument_calls_that_returned')
+            except Exception:
+                bump('failed_calls_injected')
+        if kind == 'custom' and rng.random() < 0.5:
+            # a world without a rank: asking a formula it satisfies fails; then the rank is supplied
+            w0 = rng.choice(list(ranks))
+            keep = o.ranks[w0]
+            o.ranks[w0] = None
+            lit = fml.V(sig[0]) if w0[0] == '1' else fml.Not(fml.V(sig[0]))
+            for meth, arg in (('formula_rank', fml.to_pysmt(lit)), ('conditional_acceptance', impl.mk_cond(lit, fml.TOP))):
+                try:
+                    getattr(o, meth)(arg)
+                    bump('calls_on_unranked_world_that_returned')
+                except Exception:
+                    bump('failed_calls_injected')
+            o.ranks[w0] = keep
+
     # ---- formula ranks / acceptance
     for _ in range(8):
         f = fml.rand_formula(rng, sig, rng.randint(0, 3), 0.06)
